@@ -53,6 +53,15 @@ PWA = [2.0, 0.5, 1.5, 1.0, 4.0]                         # per-component weights 
 # shape / boundary choice (the unit-cell regime is enumerated on purpose by 'cell1'/'cellinv')
 WIDE = [(-1.0, 0.75), (0.5, 3.75), (-2.0, -1.25)]
 INV_SIDES = [0.5, 2.0, 1.0]                             # cell sides with product exactly 1
+# magnitude regimes of the geometry (all dyadic, so every grid coordinate stays exact): domains far
+# from the origin (half a cell far below 1e-5 * |coordinate|), cells of tiny / huge physical size
+# (half a cell far below 1e-8).  Tolerances inside the library that are absolute, or relative to
+# the coordinate instead of the cell, become visible there.
+FAR = [2.0 ** 20, -2.0 ** 24, 2.0 ** 17]
+FARFINE = [1024.0, -4096.0, 512.0]
+TINY = 2.0 ** -30
+HUGE = 2.0 ** 20
+GEO_REGIMES = ('far', 'farfine', 'farwide', 'tiny', 'tinywide', 'huge')
 
 
 def _p(v):
@@ -248,6 +257,18 @@ def discr_geometry(cfg):
             a, b = 0.0, cells
         elif cfg['ext'] == 'cellinv':           # sides 1/2, 2, 1: cell volume exactly 1
             a, b = 0.0, cells * INV_SIDES[ax]
+        elif cfg['ext'] == 'far':               # cell side 1, 10^5 ... 10^7 cells from the origin
+            a, b = FAR[ax], FAR[ax] + cells
+        elif cfg['ext'] == 'farfine':           # cell side 2^-10, 10^6 cells from the origin
+            a, b = FARFINE[ax], FARFINE[ax] + cells * 2.0 ** -10
+        elif cfg['ext'] == 'farwide':           # the uneven box moved away (non-dyadic cells)
+            a, b = FAR[ax] + WIDE[ax][0], FAR[ax] + WIDE[ax][1]
+        elif cfg['ext'] == 'tiny':              # cell side 2^-30 ~ 1e-9 at the origin
+            a, b = 0.0, cells * TINY
+        elif cfg['ext'] == 'tinywide':          # the uneven box in units of 1e-9
+            a, b = WIDE[ax][0] * 1e-9, WIDE[ax][1] * 1e-9
+        elif cfg['ext'] == 'huge':              # cell side 2^20
+            a, b = 0.0, cells * HUGE
         else:
             raise KeyError(cfg['ext'])
         lo.append(a)
@@ -299,25 +320,39 @@ def build_discr(cfg):
     node.volume = volume
     node.exact = False
     node.warr = wk == 'arr'
+    node.geom = _geom(lo, hi, [float(R.axis_cell_side(a, b, n_, l, r))
+                               for a, b, n_, (l, r) in zip(lo, hi, shape, bdry)])
     return node
+
+
+def _geom(lo, hi, sides):
+    """Largest |coordinate| / cell side over the axes: grid coordinates of magnitude M carry a
+    rounding of eps * M, so cell fractions and cell sides carry eps * M / side."""
+    return max(max(abs(a), abs(b)) / s_ for a, b, s_ in zip(lo, hi, sides) if s_ > 0)
 
 
 GX0 = [0.0, -1.0, 0.5]                                  # first grid node per axis
 
 
 def gdiscr_geometry(cfg):
-    """-> shape, x0, stride, grid min, grid max, lo, hi  (all dyadic, exact in binary)."""
+    """-> shape, x0, stride, grid min, grid max, lo, hi  (all dyadic, exact in binary).
+
+    cfg['reg'] (optional) moves / rescales the whole configuration: 'far' shifts it by FAR (cell
+    sides stay), 'tiny' / 'huge' multiply every length by 2^-30 / 2^20."""
     shape = tuple(cfg['shape'])
+    reg = cfg.get('reg')
+    scale = TINY if reg == 'tiny' else (HUGE if reg == 'huge' else 1.0)
     x0, st, gmin, gmax, lo, hi = [], [], [], [], [], []
     for ax, (n, s_, (ol, oh)) in enumerate(zip(shape, cfg['s'], cfg['off'])):
-        x = GX0[ax]
+        x = GX0[ax] * scale + (FAR[ax] if reg == 'far' else 0.0)
+        s_ = s_ * scale
         x0.append(x)
         if n == 1:                              # offsets are absolute lengths, stride is void
             st.append(0.0)
             gmin.append(x)
             gmax.append(x)
-            lo.append(x - ol)
-            hi.append(x + oh)
+            lo.append(x - ol * scale)
+            hi.append(x + oh * scale)
         else:                                   # offsets in units of the cell side
             st.append(float(s_))
             gmin.append(x)
@@ -349,6 +384,8 @@ def build_gdiscr(cfg):
     # exponent inf: docstring (cell volume) and code (1.0) disagree, see build_discr
     node.judge = p != INF
     node.volume = float(R.domain_volume(lo, hi)) if p == 2.0 else None
+    node.geom = _geom(lo, hi, [s_ if n_ > 1 else b - a
+                               for s_, n_, a, b in zip(st, shape, lo, hi)])
     return node
 
 
@@ -412,8 +449,175 @@ def build_npyfree(cfg):
     return node
 
 
+# ------------------------------------------------------------------------------------------
+# derived spaces and elements: dtype conversions, real / imaginary parts, conjugates, copies
+#
+# ``TensorSpace.astype``: "Return a copy of this space with new ``dtype``" / "Version of this
+# space with given data type"; ``real_space`` / ``complex_space``: "The space corresponding to
+# this space's `real_dtype`" / "`complex_dtype`"; ``NumpyTensor.real`` / ``imag`` /
+# ``DiscretizedSpaceElement.real``: the real (imaginary) part "as an element of" the real space;
+# ``astype`` of an element: "Return a copy of this element with new ``dtype``"; ``conj``, ``copy``
+# stay in the space.  A version of the space that differs in the data type only has the SAME
+# weighting and the SAME exponent, so inner / norm / dist of the derived objects obey the
+# documented formulas with the weights and the exponent of the space they were derived from.
+
+FLOAT_DTYPES = ('float64', 'complex128', 'float32', 'complex64')
+VIAS_SPACE = ['real_space', 'complex_space'] + ['astype:' + d for d in FLOAT_DTYPES]
+VIAS_ELEM = ['el.real', 'el.imag', 'el.conj', 'el.copy'] + ['el.astype:' + d for d in FLOAT_DTYPES]
+
+
+def _real_of(dt):
+    return {'complex128': 'float64', 'complex64': 'float32'}.get(dt, dt)
+
+
+def _cplx_of(dt):
+    return {'float64': 'complex128', 'float32': 'complex64'}.get(dt, dt)
+
+
+def derived_dtype(base_dt, via):
+    """Data type of the derived object; None when the route derives nothing new or is not
+    defined (real part of a real element is the element itself, the imaginary part of a real
+    element is the zero element, a complex element has no real-typed copy)."""
+    cplx = base_dt.startswith('complex')
+    if via == 'real_space':
+        return _real_of(base_dt) if cplx else None
+    if via == 'complex_space':
+        return _cplx_of(base_dt) if not cplx else None
+    if via.startswith('astype:'):
+        dt = via.split(':')[1]
+        return dt if dt != base_dt else None
+    if via in ('el.real', 'el.imag'):
+        return _real_of(base_dt) if cplx else None
+    if via == 'el.conj':
+        return base_dt if cplx else None
+    if via == 'el.copy':
+        return base_dt
+    if via.startswith('el.astype:'):
+        dt = via.split(':')[1]
+        if dt == base_dt or (cplx and not dt.startswith('complex')):
+            return None
+        return dt
+    raise KeyError(via)
+
+
+def derived_admissible(base, via):
+    dt = derived_dtype(base['dtype'], via)
+    if dt is None:
+        return False
+    # a per-entry weight array is not converted to another precision (``astype`` raises "cannot
+    # cast from `weighting` data type": C20's subject, known finding there) -> same precision only
+    if base.get('w') in ('arr', 'arrF') and _real_of(dt) != _real_of(base['dtype']):
+        return False
+    return True
+
+
+def _junk(flat):
+    """A dyadic companion part that must not show in the derived element."""
+    return 0.5 * np.roll(np.asarray(flat).real, 1) + 1.0
+
+
+class Derived(Diag):
+    """Model of the derived object: weights and exponent of the base, new data type."""
+
+    def __init__(self, base, via):
+        self.base = base
+        self.via = via
+        self.elem = via.startswith('el.')
+        bs = base.space
+        if via == 'real_space':
+            space = bs.real_space
+        elif via == 'complex_space':
+            space = bs.complex_space
+        elif via.startswith('astype:'):
+            space = bs.astype(via.split(':')[1])
+        else:
+            space = self._derive(bs.zero()).space
+        dt = derived_dtype(str(base.dtype), via)
+        Diag.__init__(self, space, base.shape, dt, base.W, base.p, base.lay)
+        if self.elem and not base.cplx:
+            self.cplx = False       # the elements reached from a real space are real-valued
+        self.single = self.single or base.single
+        self.exact = base.exact
+        self.judge = base.judge
+        self.volume = base.volume
+        self.warr = base.warr
+        self.geom = getattr(base, 'geom', 0.0)
+
+    def _derive(self, el):
+        via = self.via
+        if via == 'el.real':
+            return el.real
+        if via == 'el.imag':
+            return el.imag
+        if via == 'el.conj':
+            return el.conj()
+        if via == 'el.copy':
+            return el.copy()
+        return el.astype(via.split(':')[1])
+
+    def make(self, flat, role='x'):
+        if not self.elem:
+            return Diag.make(self, flat, role)
+        flat = np.asarray(flat)
+        if self.via == 'el.real':
+            flat = flat + 1j * _junk(flat)
+        elif self.via == 'el.imag':
+            flat = _junk(flat) + 1j * flat
+        elif self.via == 'el.conj':
+            flat = np.conj(flat)
+        return self._derive(self.base.make(flat, role))
+
+
+def build_derived(cfg):
+    return Derived(build(cfg['base']), cfg['via'])
+
+
+def check_derived(node, ctx, describe):
+    """Relations between the derived object and the space it came from (no reference formula
+    involved, so they are judged where the weighting formula itself is left unjudged, too)."""
+    base = node.base
+    eps_tol = 1e-5 if node.single else 1e-12
+    got = ctx.call('exponent', lambda: float(node.space.exponent), 'space.exponent')
+    if got is not None and got != base.p:
+        ctx.report('exponent_differs_from_parent_space',
+                   '%s: exponent of the space it was derived from %s, of the derived space %s'
+                   % (describe, base.p, got))
+    if not base.has_norm:
+        return
+    # the same real-valued coordinates live in both spaces: same norm, same distance
+    n = node.n
+    vecs = [pattern(n, k, False) for k in range(4)] + [unit(n, k, False) for k in range(min(n, 3))]
+    pn, dn = [], []
+    for v in vecs:
+        a = ctx.call('norm', lambda: base.make(v, 'x').norm(), lambda: 'x=%s' % _l(v))
+        b = ctx.call('norm', lambda: node.make(v, 'x').norm(), lambda: 'x=%s' % _l(v))
+        if a is None or b is None:
+            return
+        pn.append(float(a))
+        dn.append(float(b))
+        if not abs(float(a) - float(b)) <= 4 * eps_tol * abs(float(a)):
+            ctx.report('norm_differs_from_parent_space',
+                       lambda: '%s x=%s: norm in the space it was derived from %r, norm of the '
+                               'derived element %r' % (describe, _l(v), float(a), float(b)))
+    for i in range(len(vecs) - 1):
+        x, y = vecs[i], vecs[i + 1]
+        a = ctx.call('dist', lambda: base.make(x, 'x').dist(base.make(y, 'y')),
+                     lambda: 'x=%s y=%s' % (_l(x), _l(y)))
+        b = ctx.call('dist', lambda: node.make(x, 'x').dist(node.make(y, 'y')),
+                     lambda: 'x=%s y=%s' % (_l(x), _l(y)))
+        if a is None or b is None:
+            return
+        if not abs(float(a) - float(b)) <= 4 * eps_tol * (pn[i] + pn[i + 1]):
+            ctx.report('dist_differs_from_parent_space',
+                       lambda: '%s x=%s y=%s: dist in the space it was derived from %r, dist of '
+                               'the derived elements %r' % (describe, _l(x), _l(y), float(a),
+                                                            float(b)))
+
+
 def build(cfg):
     k = cfg['kind']
+    if k == 'derived':
+        return build_derived(cfg)
     if k == 'tensor':
         return build_tensor(cfg)
     if k == 'npyfree':
@@ -628,7 +832,9 @@ def check_node(node, ctx, describe, scope='t'):
     eps = float(np.finfo('float32' if node.single else 'float64').eps)
     base = 1e-5 if node.single else 1e-12
     n = max(node.n, 1)
-    tol_pow = max(base, 4 * eps * n)
+    # discretized spaces: the quadrature weights inherit the rounding of the grid coordinates,
+    # eps * |coordinate| / cell side (below 1e-12 unless the domain is far from the origin)
+    tol_pow = max(base, 4 * eps * n, 16 * 2.0 ** -52 * getattr(node, 'geom', 0.0))
     tol_sum = 4 * eps * n if node.exact else tol_pow
     p = node.p
     tol_norm = tol_sum if (not node.cplx and p in (1.0, INF)) else tol_pow
@@ -1001,19 +1207,24 @@ def site_of(cfg):
         frac = R.has_boundary_fraction(shape, bdry)
         cv1 = R.cell_volume(lo, hi, shape, bdry) == 1
         w = cfg['w'] if cfg['w'] in ('default', 'c1.0') else _wcls(cfg['w'])
-        return 'uniform_discr[w=%s,%s,%s,%s,%s]' % (w, _pcls(cfg['p']), cfg['dtype'],
-                                                    'bdry' if frac else 'nobdry',
-                                                    'cv1' if cv1 else 'cv')
+        reg = (',' + cfg['ext']) if cfg['ext'] in GEO_REGIMES else ''
+        return 'uniform_discr[w=%s,%s,%s,%s,%s%s]' % (w, _pcls(cfg['p']), cfg['dtype'],
+                                                      'bdry' if frac else 'nobdry',
+                                                      'cv1' if cv1 else 'cv', reg)
     if k == 'gdiscr':
         shape, x0, st, gmin, gmax, lo, hi = gdiscr_geometry(cfg)
         fr = [f for pr in R.grid_fractions(x0, st, shape, lo, hi) for f in pr]
         cls = 'fr1' if all(f == 1 for f in fr) else (
             'frhalf' if all(f in (1, R.Fr(1, 2)) for f in fr) else 'frany')
+        if any(f not in (1, R.Fr(1, 2)) and min(abs(f - 1), abs(f - R.Fr(1, 2))) < R.Fr(1, 10000)
+               for f in fr):
+            cls = 'frnear'                      # a fraction within 1e-4 of 1 or 1/2, not equal
         vol = R.Fr(1)
         for n, s_, a, b in zip(shape, st, lo, hi):
             vol *= (R.Fr(b) - R.Fr(a)) if n == 1 else R.Fr(s_)
-        return 'discr_frompartition[w=default,%s,%s,%s,%s]' % (
-            _pcls(cfg['p']), cfg['dtype'], cls, 'cv1' if vol == 1 else 'cv')
+        return 'discr_frompartition[w=default,%s,%s,%s,%s%s]' % (
+            _pcls(cfg['p']), cfg['dtype'], cls, 'cv1' if vol == 1 else 'cv',
+            (',' + cfg['reg']) if cfg.get('reg') else '')
     if k == 'prod':
         ps, dts = set(), set()
         _walk(cfg, ps, dts, top=True)
@@ -1022,6 +1233,8 @@ def site_of(cfg):
             tags += ',mixed-precision'
         return 'ProductSpace[%s,%s,w=%s,%s]' % (cfg['name'], tags, _wcls(cfg['w']),
                                                 _pcls(cfg['p']))
+    if k == 'derived':
+        return 'derived[%s|%s]' % (cfg['via'], site_of(cfg['base']))
     if k == 'whist':
         return 'array_weight_history[%s,%s]' % (cfg['name'], _pcls(cfg['space']['p']))
     if k == 'custom':
@@ -1161,7 +1374,32 @@ def _discr_configs(thorough):
             for sh in ([1, 3, 2], [2, 1, 3], [3, 2, 1], [1, 1, 2]):
                 for p in (2, 1.5):
                     out.append(DS(sh, bd, 'wide', 'float64', 'default', p))
+    # ---- magnitude regimes of the geometry: far from the origin, tiny and huge cells
+    for n in (1, 2, 3, 5):
+        for b in BD:
+            for ext in GEO_REGIMES:
+                for p in ps:
+                    out.append(DS([n], [b], ext, 'float64', 'default', p))
+                if thorough or (n == 3 and ext in ('far', 'tiny')):
+                    for dt in ('complex128', 'float32'):
+                        for p in (2, 1.5):
+                            out.append(DS([n], [b], ext, dt, 'default', p))
+            if n == 3:
+                for ext in ('far', 'tiny'):
+                    for w in ('c2.0', 'c1.0', 'arr'):
+                        out.append(DS([n], [b], ext, 'float64', w, 2))
+    for sh in (((2, 3), (3, 1), (1, 2)) if not thorough else
+               list(itertools.product((1, 2, 3), repeat=2))):
+        for bd in itertools.product(BD, repeat=2):
+            for ext in (GEO_REGIMES if thorough else ('far', 'farwide', 'tiny')):
+                for p in (2, 1.5):
+                    out.append(DS(sh, bd, ext, 'float64', 'default', p))
+    for bd in ([(1, 0), (0, 0), (1, 1)], [(0, 0), (0, 0), (0, 0)]):
+        for ext in ('far', 'tiny'):
+            out.append(DS([2, 3, 2], bd, ext, 'float64', 'default', 2))
     # ---- large grids (size regimes behind the boundary scaling)
+    out.append(DS([1000], [(0, 0)], 'farwide', 'float64', 'default', 2))
+    out.append(DS([1000], [(0, 1)], 'tinywide', 'float64', 'default', 2))
     for sh, bd in (([50001], [(1, 0)]), ([100], [(1, 1)]), ([3, 16667], [(0, 1), (1, 1)])):
         for dt in ('float64', 'float32') + (('complex128',) if thorough else ()):
             for p in ([2, 1.5] if not thorough else ps):
@@ -1169,9 +1407,12 @@ def _discr_configs(thorough):
     return out
 
 
-def GD(shape, s, off, dtype='float64', p=2, lay='C'):
-    return {'kind': 'gdiscr', 'shape': list(shape), 's': list(s), 'off': [list(o) for o in off],
-            'dtype': dtype, 'p': p, 'lay': lay}
+def GD(shape, s, off, dtype='float64', p=2, lay='C', reg=None):
+    d = {'kind': 'gdiscr', 'shape': list(shape), 's': list(s), 'off': [list(o) for o in off],
+         'dtype': dtype, 'p': p, 'lay': lay}
+    if reg:
+        d['reg'] = reg
+    return d
 
 
 def _gdiscr_configs(thorough):
@@ -1213,6 +1454,38 @@ def _gdiscr_configs(thorough):
                     if thorough:
                         for dt in ('complex128', 'float32'):
                             out.append(GD(sh, [0.5, 0.25], [a0, a1], dt, 2))
+    # ---- magnitude regimes: the same misaligned grids far from the origin / with tiny / huge
+    # cells (an outermost node closer to the boundary than a tolerance, but not on it)
+    for reg in ('far', 'tiny', 'huge'):
+        for n in (1, 2, 3, 5):
+            for ol in offs:
+                for oh in offs:
+                    for p in (ps if reg != 'huge' else (2,)):
+                        out.append(GD([n], [0.5], [(ol, oh)], 'float64', p, reg=reg))
+                    if (ol, oh) in ((0.25, 1.25), (0.5, 0.5)) and reg != 'huge':
+                        for dt in ('complex128', 'float32'):
+                            out.append(GD([n], [0.5], [(ol, oh)], dt, 2, reg=reg))
+        if reg != 'huge':
+            for sh in ((2, 3), (3, 1)):
+                for a0 in ax[:3]:
+                    for a1 in ax[:3]:
+                        for p in (2, 1.5):
+                            out.append(GD(sh, [0.5, 0.25], [a0, a1], 'float64', p, reg=reg))
+    # ---- boundary-cell fractions next to, but not equal to, 1 and 1/2 (1 +- 2^-20, 1/2 + 2^-20:
+    # "any value larger than 1/2 is possible"), alone and combined with ordinary ones
+    d = 2.0 ** -20
+    near = [(0.5 + d, 0.5), (0.5, 0.5 - d), (0.5 - d, 0.5 + d), (0.25, 0.5 + d), (d, 1.25),
+            (0.5, d), (d, d)]
+    for n in (2, 3, 5):
+        for o in near:
+            for p in ps:
+                out.append(GD([n], [0.5], [o], 'float64', p))
+            out.append(GD([n], [1.0], [o], 'float64', 2))
+            for dt in ('complex128', 'float32'):
+                out.append(GD([n], [0.5], [o], dt, 2))
+    for o in near[:5]:
+        out.append(GD([2, 3], [0.5, 0.25], [o, (0.5, 0.5)], 'float64', 2))
+        out.append(GD([2, 3], [0.5, 0.25], [(0.25, 1.25), o], 'float64', 2))
     # ---- 3-d and a large grid
     for a in ([(0.25, 1.25), (0.5, 0.5), (1.0, 0.25)], [(0.5, 1.0), (0.25, 0.25), (0.0, 1.25)],
               [(0.25, 0.5), (0.5, 0.5), (0.5, 0.5)]):
@@ -1376,10 +1649,45 @@ def _custom_configs(thorough):
     return out
 
 
+def _derived_configs(thorough):
+    """Every route to a derived space / element x every weighting kind (none, constants
+    including exactly 1.0, per-entry array, default cell volume including exactly 1.0) x every
+    exponent x every floating-point data type."""
+    ps = PS_T if thorough else PS_Q
+    bases = []
+    for dt in FLOAT_DTYPES:
+        for p in ps:
+            for w in ('none', 'c1.0', 'c2.0', 'c0.5', 'arr'):
+                bases.append(T([3], dt, w, p))
+            for w, lay in (('none', 'F'), ('c2.0', 'FC'), ('arrF', 'C')):
+                if thorough or dt in ('complex128', 'float32'):
+                    bases.append(T([2, 2], dt, w, p, lay))
+            # discretized: default weighting (cell volume != 1 / == 1, with and without cut
+            # boundary cells), explicit constants and arrays
+            for b in BD:
+                for ext in ('wide', 'cell1'):
+                    if thorough or b in ((0, 0), (1, 1)) or dt == 'complex128':
+                        bases.append(DS([3], [b], ext, dt, 'default', p))
+            for w in ('c1.0', 'c2.0', 'arr'):
+                bases.append(DS([3], [(0, 0)], 'wide', dt, w, p))
+            if dt in ('float64', 'complex128'):
+                bases.append(DS([2, 3], [(1, 0), (0, 0)], 'cellinv', dt, 'default', p))
+                bases.append(DS([2, 3], [(0, 1), (1, 1)], 'wide', dt, 'default', p, 'F'))
+                bases.append(GD([3], [0.5], [(0.25, 1.25)], dt, p))
+                bases.append(GD([3], [1.0], [(0.5, 0.5)], dt, p))
+    out = []
+    for base in bases:
+        for via in VIAS_SPACE + VIAS_ELEM:
+            if derived_admissible(base, via):
+                out.append({'kind': 'derived', 'via': via, 'base': base})
+    return out
+
+
 def configs(tier):
     thorough = tier == 'thorough'
     cfgs = []
     cfgs += _tensor_configs(thorough)
+    cfgs += _derived_configs(thorough)
     cfgs += _custom_configs(thorough)
     cfgs += _discr_configs(thorough)
     cfgs += _gdiscr_configs(thorough)
@@ -1394,6 +1702,8 @@ def configs(tier):
         sc = 't' if thorough else 'q'
         if c['kind'] in ('discr', 'gdiscr') and len(c['shape']) > 1:
             sc = 'q' if (thorough and len(c['shape']) == 2) else 'p'
+        if c['kind'] == 'derived':
+            sc = 'p'
         c = dict(c, sc=sc)
         k = repr(sorted(c.items(), key=lambda kv: kv[0]))
         if k not in seen:
@@ -1421,6 +1731,12 @@ def _describe(cfg):
                 % (gmin, gmax, shape, lo, hi, cfg['dtype'], cfg['p'], cfg.get('lay', 'C')))
     if k == 'prod':
         return 'ProductSpace %s weighting=%s exponent=%s' % (cfg['name'], cfg['w'], cfg['p'])
+    if k == 'derived':
+        via = cfg['via']
+        how = ('elements x.%s of elements x of' % via[3:].replace('astype:', 'astype(') +
+               (')' if 'astype' in via else '') if via.startswith('el.') else
+               'space.%s%s of' % (via.replace('astype:', 'astype('), ')' if 'astype' in via else ''))
+        return '%s [%s]' % (how, _describe(cfg['base']))
     if k == 'custom':
         return 'custom %s= on %s' % (cfg['which'], cfg['base'])
     if k == 'npyfree':
@@ -1483,6 +1799,8 @@ def run(cfg):
                 'viol': [{'site': site, 'symptom': 'raises:' + type(e).__name__,
                           'detail': 'constructing %s: %r' % (_describe(cfg), e)}]}
     mode, gram, sample = check_node(node, ctx, _describe(cfg), cfg.get('sc', 't'))
+    if cfg['kind'] == 'derived':
+        check_derived(node, ctx, _describe(cfg))
     sig = '%s|%s|gram=%s|inner=%d|norm=%d|judge=%d|%s' % (
         site, mode.split('^')[0], gram, node.has_inner, node.has_norm, node.judge,
         ','.join(ctx.order) or 'ok')
